@@ -281,6 +281,7 @@ def limit_exits(ctx, s, fn, filt):
               "a count-based exit leaves a loop that is not in time order: the result is the first listed, not the newest", e.src)
     ctx.instances["C05.limit-exits"] = n
     other_exits(ctx, s, fn, filt)
+    scan_window(ctx, s, fn, filt)
     # assignments to the moving `since`
     since_locals = [i for i, l in enumerate(fn.locals) if l.get("n") == "since" and "inl" not in l]
     cnt = 0
@@ -310,6 +311,34 @@ def limit_exits(ctx, s, fn, filt):
               "since is replaced only by an accepted event's created_at that is greater than the current since" if (ok and isct) else
               "since can be lowered or set to something other than an accepted event's time: older matching events are cut off wrongly", b)
     ctx.instances["C05.since-updates"] = cnt
+
+
+def scan_window(ctx, s, fn, filt):
+    """S-REL: every index range scan of a query is bounded by the filter's own window: its `until` argument is
+    filter.until() itself, its `since` argument is filter.since() or the moving lower bound that starts there and is only
+    raised.  (A bound narrowed for any other reason hides stored events that match the filter.)"""
+    an = ctx.E.an(fn)
+    since_locals = [i for i, l in enumerate(fn.locals) if l.get("n") == "since" and "inl" not in l]
+    n = 0
+    for b, info in an.calls():
+        c = info["callee"] or ""
+        cf = ctx.F.fns.get(c)
+        if cf is None or not cf.nice.startswith("pocket_db::Lmdb::") or not cf.nice.endswith("_iter"):
+            continue
+        names = [cf.local_name(i) for i in range(1, cf.argc + 1)]
+        if "since" not in names or "until" not in names:
+            continue
+        n += 1
+        a_since, a_until = info["args"][names.index("since")], info["args"][names.index("until")]
+        is_f = lambda v, acc_: v[0] == "call" and v[1].endswith("::" + acc_) and v[2] and v[2][0] == filt
+        ok_u = is_f(a_until, "until")
+        ok_s = is_f(a_since, "since") or (a_since[0] == "phi" and a_since[2][0] == "local" and a_since[2][1] in since_locals)
+        short = cf.nice.split("::")[-1]
+        s.add("S-REL", fn, "scan-window", "%s@%s" % (short, _plan(an, b)), info["sp"], PROVED if (ok_u and ok_s) else VIOLATION,
+              "the scan runs from filter.until() down to filter.since() (or the raised lower bound)" if (ok_u and ok_s) else
+              "the scan over %s is not bounded by the filter's own window (until=%s, since=%s): stored events that match the filter "
+              "but lie outside the narrowed bound are never returned" % (short, s.show(a_until, fn)[:40], s.show(a_since, fn)[:40]), b)
+    ctx.instances["C05.range-scans"] = n
 
 
 def other_exits(ctx, s, fn, filt):
